@@ -2,16 +2,16 @@
 C09 — all four output formats carry the same data and convert back to it.
 
 Theorems: lean/BufrModel/Props/C09.lean (wiring consumes each flat index exactly once, one node per template
-member / n_members nodes per repetition, nested JSON -> flat recovers the flat value list, the text converters
-invert the text renderers for any value-token function with the stated properties).
+member / n_members nodes per repetition, nested JSON -> flat recovers the flat value list under decidable side
+conditions).  The text formats are not modelled in Lean; the oracle decides them.
 Oracle (the statement itself, on the implementation): for every decodable message each of
 nested_json_to_flat_json(NestedJsonRenderer), flat_text_to_flat_json(FlatTextRenderer),
 nested_text_to_flat_json(NestedTextRenderer) equals FlatJsonRenderer (strictly: types, floats by repr, bytes);
 Encoder().process of the four inputs (as the CLI prepares them) gives the same bytes; the wired node tree holds
 every flat index exactly once as member, replication factor or associated-field attribute, in flat order,
 and every other attribute is one of those nodes.
-Tie: node tree, nested JSON (without the table-text `description`), nested JSON -> flat, and the two text
-renderings / converters of the model (driver op `views`, `text-views`) against the implementation's.
+Tie: node tree, nested JSON (without the table-text `description`), nested JSON -> flat and the side conditions of
+the conversion theorem, model (driver op `views`) against implementation.
 Inputs: the shared generated pipeline (levels 0-2, compressed or not, 1-4 subsets), the shapes the property
 names (see SHAPES), every file of tests/data and 40 / all of tests/benchmark_data.
 """
@@ -28,22 +28,23 @@ PROP = 'C09'
 
 META = dict(
     claimed=True,
-    text='Kernel-checked theorems about the Lean model of TemplateData.wire, NestedJsonRenderer, '
-         'nested_json_to_flat_json and the two text renderer/converter pairs: for EVERY template and every flat '
-         'result the wiring pass either fails or yields a tree whose flat indices (members, replication factors, '
-         'associated-field attributes, in tree order) are exactly 0..k-1 for the k indices it consumed, one node per '
-         'template member and n_members nodes per repetition; nested JSON -> flat returns the values at those indices, '
-         'hence the whole flat list whenever the pass consumed all of it and its associated-field nodes carry A labels '
-         '(proved to be the case for every successful decode of an operator-free template, _partial; with operators the '
-         'two side conditions are checked per case by the correspondence); flat text -> flat and nested text -> flat '
-         'recover the flat list for any value-token function with evalV (reprV v) = v and the stated shape. '
-         'Correspondence + oracle on generated messages of every construct, the shapes named by the property and the '
-         'sample files.',
-    technique='Lean 4 theorems (structural induction over the template / node tree; list and character-level reasoning for the '
-              'text formats) + checked model/implementation correspondence + property oracle on the implementation',
-    note='Python repr / ast.literal_eval are replaced by an abstract value token (hypotheses of the text theorems, tested on '
-         'every value); description strings (table text) are outside the model; meaning nodes surviving from an earlier '
-         'subset and shared mutable nodes are modelled by value.',
+    text='Kernel-checked theorems about the Lean model of TemplateData.wire, NestedJsonRenderer and '
+         'nested_json_to_flat_json: for EVERY template and every flat result (labels, values, links) a successful wiring '
+         'pass yields a tree whose flat indices (members, replication factors, associated-field attributes, in tree order) '
+         'are exactly 0..k-1 for the k indices it consumed - each once, in flat order; one node per template member and '
+         'n_repeats*n_members nodes per replication (the chunking the renderers rely on); nested JSON -> flat applied to the '
+         'nested JSON of the wired tree returns exactly the flat value list under decidable side conditions (everything '
+         'consumed, A labels exactly on associated-field nodes, chunk lengths, leading id digit) that the driver evaluates on '
+         'every case (_partial: the link "every successful decode satisfies them" is not proved and is false for the open '
+         'findings F11a-d/F15). Correspondence (node tree, nested JSON without table text, nested JSON -> flat, error family, '
+         'side conditions) and the property oracle on the implementation (three conversions == flat JSON, four encodings '
+         'equal, every flat index held once) on generated messages of every construct, the shapes the property names and '
+         'the sample files. The two TEXT formats are not modelled in Lean: they are decided by the oracle only.',
+    technique='Lean 4 theorems (mutual structural induction over the template and the node tree) + checked model/implementation '
+              'correspondence + property oracle on the implementation',
+    note='description strings (table text) are outside the model; meaning nodes surviving from an earlier subset and shared '
+         'mutable nodes are modelled by value; flat text and nested text renderers/converters are covered by the oracle, not '
+         'by theorems.',
 )
 
 # ---------------------------------------------------------------------------------------------
@@ -211,6 +212,8 @@ def oracle(obs):
             bad.append((name, 'conversion to flat failed: %s' % st.get('exc')))
         elif not st['equal']:
             bad.append((name, 'converted != flat JSON at %s: %s vs %s' % tuple(st['diff'])))
+        elif st.get('layout_equal') is False:
+            bad.append((name + '_layout', 'nested text and nested JSON lay the nodes out differently: %s' % st.get('layout_diff')))
     if 'enc_same' in obs and not obs['enc_same'] and not bad:
         bad.append(('encode', 'encodings differ: %s' % {k: (v[:60] if isinstance(v, str) else v) for k, v in obs['enc'].items()}))
     return bad
